@@ -55,6 +55,8 @@ func transportRules(c *Ctx) {
 		}
 	}
 	ruleOneReceiver(c, midiClasses)
+	ruleOneLane(c, midiClasses)
+	rulePortClosedByItsWriter(c)
 	ruleForwardOnce(c, cf, midiClasses)
 	ruleRelayDrains(c, cf, midiClasses)
 	ruleFanOut(c)
@@ -89,6 +91,8 @@ func checkC15(c *Ctx) {
 	}
 	c.Check(len(midiClasses) >= 6, "R15.1", "midi-path-channels", "-", fmt.Sprintf("%d abstract channels on the MIDI path (of %d in the program)", len(midiClasses), len(classes)), "MIDI path channels not found")
 	ruleOneReceiver(c, midiClasses)
+	ruleOneLane(c, midiClasses)
+	rulePortClosedByItsWriter(c)
 	ruleForwardOnce(c, cf, midiClasses)
 	ruleRelayDrains(c, cf, midiClasses)
 	ruleFanOut(c)
@@ -97,6 +101,8 @@ func checkC15(c *Ctx) {
 	c.MinCount("R15.2", 4)
 	c.MinCount("R15.3", 6)
 	c.MinCount("R15.5", 3)
+	c.MinCount("R15.9", 3)
+	c.MinCount("R15.10", 1)
 	c.DecidedClause("each hop of the MIDI path (device output channel, ALSA out/in channels, input relay channel, fan-out input, each fan output) has exactly one receiving function, started once; every relay forwards a value only when one was actually received (ok) and exactly once; the fan-out touches its output map only under its mutex, sends each element to every output in one critical section, closes and removes an output in one critical section, and releases the lock on every realisable path; no blocking send is made while holding the lock that removal needs; channels are closed only after their senders are done")
 	c.UndecidedClause("actual interleavings, fairness, buffer sizes, the ALSA/rtmidi driver, messages still buffered when the context is cancelled (relays stop without draining), the unsynchronised `closed` flag of the fan-out")
 	c.Assumption("Go channels are FIFO and deliver each value to exactly one receiver")
@@ -1596,4 +1602,277 @@ func r154fail(n int) (string, bool) {
 		fmt.Fprintln(os.Stderr, "r154 fail at", n)
 	}
 	return "", false
+}
+
+// ruleOneLane: R15.9. Go channels are FIFO, so a chain of single-lane hops keeps the order. A relay that takes payload
+// from two channels of the MIDI path and forwards it (a priority lane for real-time messages, a side queue) decides the
+// order of two messages by its own polling, not by their arrival.
+func ruleOneLane(c *Ctx, classes []*chanClass) {
+	recvFrom := map[*ssa.Function]map[*chanClass]bool{}
+	sendsTo := map[*ssa.Function]map[*chanClass]bool{}
+	for _, cl := range classes {
+		for _, r := range cl.Recvs {
+			if recvFrom[r.Fn] == nil {
+				recvFrom[r.Fn] = map[*chanClass]bool{}
+			}
+			recvFrom[r.Fn][cl] = true
+		}
+		for _, s := range cl.Sends {
+			if sendsTo[s.Fn] == nil {
+				sendsTo[s.Fn] = map[*chanClass]bool{}
+			}
+			sendsTo[s.Fn][cl] = true
+		}
+	}
+	var fns []*ssa.Function
+	for f := range recvFrom {
+		fns = append(fns, f)
+	}
+	sort.Slice(fns, func(i, j int) bool { return fns[i].String() < fns[j].String() })
+	n := 0
+	for _, f := range fns {
+		if len(sendsTo[f]) == 0 {
+			continue // a consumer, not a relay
+		}
+		n++
+		key := "relay@" + shortFn(f) + "/one-lane-in"
+		if len(recvFrom[f]) > 1 {
+			var from []string
+			for cl := range recvFrom[f] {
+				from = append(from, "chan@"+shortFn(cl.Makes[0].Fn)+":"+c.P.Pos(cl.Makes[0].Instr.Pos()))
+			}
+			sort.Strings(from)
+			c.Bad("R15.9", key, c.P.Pos(f.Pos()), fmt.Sprintf("the relay takes messages from %d channels of the MIDI path %v and forwards them: the order of two messages that travelled on different lanes is decided by the relay's polling, not by their arrival (emission) order", len(from), from))
+			continue
+		}
+		c.OK("R15.9", key, c.P.Pos(f.Pos()), "forwards what it takes from one channel (FIFO)")
+	}
+	if n == 0 {
+		c.Undec("R15.9", "relays", "-", "no relay (a function that receives from and sends to channels of the MIDI path) found")
+	}
+}
+
+// rulePortClosedByItsWriter: R15.10. The output port is closed (deferred or not) by the goroutine that took its send
+// channel. Everything that goroutine forwarded has been handed to the port when it returns - provided it does the
+// handing over itself. A writer goroutine of its own (a queue in front of a slow port) still holds messages when the
+// relay returns and the port is closed under it, unless the relay waits for it: a receive from a channel the writer
+// closes, or Wait on a WaitGroup the writer is Done with.
+func rulePortClosedByItsWriter(c *Ctx) {
+	n := 0
+	for _, fn := range c.P.Funcs {
+		if funcPkgPath(topFunc(fn)) != pkgMidi || len(fn.Blocks) == 0 {
+			continue
+		}
+		var closes []ssa.Instruction
+		var sendChans []ssa.Value
+		for _, b := range fn.Blocks {
+			for _, in := range b.Instrs {
+				ci, ok := in.(ssa.CallInstruction)
+				if !ok || !ci.Common().IsInvoke() {
+					continue
+				}
+				m := ci.Common().Method
+				if !hasMethod(ci.Common().Value.Type(), "SendChannel") {
+					continue
+				}
+				switch m.Name() {
+				case "Close":
+					closes = append(closes, in)
+				case "SendChannel":
+					if v, isVal := in.(ssa.Value); isVal {
+						sendChans = append(sendChans, v)
+					}
+				}
+			}
+		}
+		if len(closes) == 0 || len(sendChans) == 0 {
+			continue
+		}
+		n++
+		key := "port-output@" + shortFn(fn) + "/closed-by-its-writer"
+		pos := c.P.Pos(closes[0].Pos())
+		// who sends on the port's channel?
+		var others []*ssa.Function
+		own := 0
+		var visit func(f *ssa.Function, ch ssa.Value, depth int)
+		visit = func(f *ssa.Function, ch ssa.Value, depth int) {
+			if depth > 3 || ch.Referrers() == nil {
+				return
+			}
+			for _, r := range *ch.Referrers() {
+				switch x := r.(type) {
+				case *ssa.Send:
+					if x.Chan == ch {
+						if f == fn {
+							own++
+						} else {
+							others = append(others, f)
+						}
+					}
+				case *ssa.Select:
+					for _, st := range x.States {
+						if st.Chan == ch && st.Dir == types.SendOnly {
+							if f == fn {
+								own++
+							} else {
+								others = append(others, f)
+							}
+						}
+					}
+				case *ssa.MakeClosure:
+					cf := x.Fn.(*ssa.Function)
+					for i, bnd := range x.Bindings {
+						if bnd == ch && i < len(cf.FreeVars) {
+							visit(cf, cf.FreeVars[i], depth+1)
+						}
+					}
+				case *ssa.Store:
+					// spilled into a captured variable
+					if a, isAlloc := x.Addr.(*ssa.Alloc); isAlloc && x.Val == ch && a.Referrers() != nil {
+						for _, rr := range *a.Referrers() {
+							if mc, isMC := rr.(*ssa.MakeClosure); isMC {
+								cf := mc.Fn.(*ssa.Function)
+								for i, bnd := range mc.Bindings {
+									if bnd == a && i < len(cf.FreeVars) && cf.FreeVars[i].Referrers() != nil {
+										for _, r3 := range *cf.FreeVars[i].Referrers() {
+											if ld, isLd := r3.(*ssa.UnOp); isLd && ld.Op == token.MUL {
+												visit(cf, ld, depth+1)
+											}
+										}
+									}
+								}
+							}
+							if ld, isLd := rr.(*ssa.UnOp); isLd && ld.Op == token.MUL {
+								visit(f, ld, depth+1)
+							}
+						}
+					}
+				case *ssa.Phi, *ssa.ChangeType:
+					visit(f, x.(ssa.Value), depth+1)
+				}
+			}
+		}
+		for _, ch := range sendChans {
+			visit(fn, ch, 0)
+		}
+		if len(others) == 0 {
+			c.Check(own > 0, "R15.10", key, pos, fmt.Sprintf("the goroutine that closes the port makes all %d send(s) to it itself", own), "no send to the port's channel found")
+			continue
+		}
+		bad := ""
+		for _, g := range others {
+			if !joinedBefore(fn, g, closes) {
+				bad = fmt.Sprintf("%s writes to the port while %s closes it without waiting for that writer: messages still queued for the writer when the relay ends never reach the port", shortFn(g), shortFn(fn))
+			}
+		}
+		c.Check(bad == "", "R15.10", key, pos, "the writer goroutine is waited for before the port is closed", bad)
+	}
+	if n == 0 {
+		c.Undec("R15.10", "port-output", "-", "no function that takes the output port's send channel and closes the port found")
+	}
+}
+
+func hasMethod(t types.Type, name string) bool {
+	ms := types.NewMethodSet(t)
+	for i := 0; i < ms.Len(); i++ {
+		if ms.At(i).Obj().Name() == name {
+			return true
+		}
+	}
+	return false
+}
+
+// joinedBefore: closer waits for writer before the port is closed: closer receives from a channel (or calls Wait on a
+// WaitGroup) that it shares with writer, in a block that every return of closer passes (a deferred Close runs at the
+// returns) or that dominates the Close call; writer closes that channel (or calls Done).
+func joinedBefore(closer, writer *ssa.Function, closes []ssa.Instruction) bool {
+	// shared objects: bindings of the MakeClosure that creates writer inside closer
+	for _, b := range closer.Blocks {
+		for _, in := range b.Instrs {
+			mc, ok := in.(*ssa.MakeClosure)
+			if !ok || mc.Fn != writer {
+				continue
+			}
+			for i, bnd := range mc.Bindings {
+				if i >= len(writer.FreeVars) {
+					continue
+				}
+				fv := writer.FreeVars[i]
+				signals := false
+				if fv.Referrers() != nil {
+					for _, r := range *fv.Referrers() {
+						signals = signals || signalsEnd(r, fv)
+						if ld, isLd := r.(*ssa.UnOp); isLd && ld.Op == token.MUL && ld.Referrers() != nil {
+							for _, rr := range *ld.Referrers() {
+								signals = signals || signalsEnd(rr, ld)
+							}
+						}
+					}
+				}
+				if !signals {
+					continue
+				}
+				if waitsOn(closer, bnd, closes) {
+					return true
+				}
+			}
+		}
+	}
+	return false
+}
+
+func signalsEnd(in ssa.Instruction, v ssa.Value) bool {
+	ci, ok := in.(ssa.CallInstruction)
+	if !ok {
+		return false
+	}
+	if bi, isB := ci.Common().Value.(*ssa.Builtin); isB && bi.Name() == "close" && len(ci.Common().Args) == 1 && ci.Common().Args[0] == v {
+		return true
+	}
+	if callee := ci.Common().StaticCallee(); callee != nil && callee.Name() == "Done" && pkgPathOf(callee) == "sync" && len(ci.Common().Args) > 0 && ci.Common().Args[0] == v {
+		return true
+	}
+	return false
+}
+
+func waitsOn(closer *ssa.Function, obj ssa.Value, closes []ssa.Instruction) bool {
+	var waits []*ssa.BasicBlock
+	var scan func(v ssa.Value, depth int)
+	scan = func(v ssa.Value, depth int) {
+		if depth > 2 || v.Referrers() == nil {
+			return
+		}
+		for _, r := range *v.Referrers() {
+			switch x := r.(type) {
+			case *ssa.UnOp:
+				if x.Op == token.ARROW && x.X == v {
+					waits = append(waits, x.Block())
+				}
+				if x.Op == token.MUL {
+					scan(x, depth+1)
+				}
+			case *ssa.Call:
+				if callee := x.Call.StaticCallee(); callee != nil && callee.Name() == "Wait" && pkgPathOf(callee) == "sync" && len(x.Call.Args) > 0 && x.Call.Args[0] == v {
+					waits = append(waits, x.Block())
+				}
+			}
+		}
+	}
+	scan(obj, 0)
+	for _, w := range waits {
+		ok := true
+		for _, cl := range closes {
+			if _, deferred := cl.(*ssa.Defer); deferred {
+				if !dominatesAllReturns(w, closer) {
+					ok = false
+				}
+			} else if !(w.Dominates(cl.Block())) {
+				ok = false
+			}
+		}
+		if ok {
+			return true
+		}
+	}
+	return false
 }
